@@ -3,6 +3,7 @@ package props
 import (
 	"bytes"
 	"fmt"
+	"strings"
 
 	"github.com/pion/rtcp"
 
@@ -25,8 +26,16 @@ func init() {
 }
 
 type c06elem struct {
-	name string
-	b    []byte
+	name  string
+	b     []byte
+	valid bool // a well-framed packet by construction: must be accepted on its own
+}
+
+func min(a, b int) int {
+	if a < b {
+		return a
+	}
+	return b
 }
 
 func c06Alphabet() []c06elem {
@@ -52,21 +61,21 @@ func c06Alphabet() []c06elem {
 		if err != nil || pan != "" {
 			continue
 		}
-		out = append(out, c06elem{b.Type + "{" + b.Shape + "}", append([]byte{}, wire...)})
+		out = append(out, c06elem{b.Type + "{" + b.Shape + "}", append([]byte{}, wire...), true})
 	}
 	// malformed elements
 	out = append(out,
-		c06elem{"bad-version-0", []byte{0x00, 200, 0, 1, 1, 2, 3, 4}},
-		c06elem{"bad-version-3", []byte{0xc1, 206, 0, 2, 1, 2, 3, 4, 5, 6, 7, 8}},
-		c06elem{"length-beyond", []byte{0x81, 206, 0, 3, 1, 2, 3, 4, 5, 6, 7, 8}},
-		c06elem{"length-65535", []byte{0x80, 201, 0xff, 0xff, 1, 2, 3, 4}},
-		c06elem{"sr-count-without-report", []byte{0x81, 200, 0, 6, 1, 2, 3, 4, 0, 0, 0, 0, 0, 0, 0, 0, 0, 0, 0, 0, 0, 0, 0, 0, 0, 0, 0, 0}},
-		c06elem{"sdes-unterminated", []byte{0x81, 202, 0, 2, 1, 2, 3, 4, 1, 9, 'a', 'b'}},
-		c06elem{"pli-short", []byte{0x81, 206, 0, 1, 1, 2, 3, 4}},
-		c06elem{"tail-1", []byte{0x80}},
-		c06elem{"tail-2", []byte{0x80, 201}},
-		c06elem{"tail-3", []byte{0x80, 201, 0}},
-		c06elem{"zero-word", []byte{0, 0, 0, 0}},
+		c06elem{name: "bad-version-0", b: []byte{0x00, 200, 0, 1, 1, 2, 3, 4}},
+		c06elem{name: "bad-version-3", b: []byte{0xc1, 206, 0, 2, 1, 2, 3, 4, 5, 6, 7, 8}},
+		c06elem{name: "length-beyond", b: []byte{0x81, 206, 0, 3, 1, 2, 3, 4, 5, 6, 7, 8}},
+		c06elem{name: "length-65535", b: []byte{0x80, 201, 0xff, 0xff, 1, 2, 3, 4}},
+		c06elem{name: "sr-count-without-report", b: []byte{0x81, 200, 0, 6, 1, 2, 3, 4, 0, 0, 0, 0, 0, 0, 0, 0, 0, 0, 0, 0, 0, 0, 0, 0, 0, 0, 0, 0}},
+		c06elem{name: "sdes-unterminated", b: []byte{0x81, 202, 0, 2, 1, 2, 3, 4, 1, 9, 'a', 'b'}},
+		c06elem{name: "pli-short", b: []byte{0x81, 206, 0, 1, 1, 2, 3, 4}},
+		c06elem{name: "tail-1", b: []byte{0x80}},
+		c06elem{name: "tail-2", b: []byte{0x80, 201}},
+		c06elem{name: "tail-3", b: []byte{0x80, 201, 0}},
+		c06elem{name: "zero-word", b: []byte{0, 0, 0, 0}},
 	)
 	return out
 }
@@ -174,6 +183,24 @@ func runC06(c *bx.Ctx) {
 		}
 		c.Sample(func() interface{} { return map[string]interface{}{"sequence": names, "octets": len(dg), "packets": len(ps)} })
 	}
+	// large frames (64 KiB and more: the 16-bit words*4 arithmetic wraps there)
+	nSmall := len(alpha)
+	for _, g := range c06Large() {
+		alpha = append(alpha, g)
+	}
+	// every well-framed element must be accepted on its own as exactly one packet covering it
+	// (the differential oracle below takes the single-frame decode as its baseline)
+	if c.Shard == 0 {
+		for _, e := range alpha {
+			if !e.valid {
+				continue
+			}
+			if s := one(e.b); !s.ok {
+				c.Report(keyJoin("C06/valid-frame-rejected-alone", strings.SplitN(e.name, "{", 2)[0]), "a well-framed packet is not accepted on its own as exactly one packet: "+e.name,
+					bx.Replay{Entry: "dgram", InputHex: bx.Hex(e.b[:min(len(e.b), 64)]), Ops: fmt.Sprintf("%s (%d octets)", e.name, len(e.b)), Expected: "one packet", Observed: "error or a different number of packets"})
+			}
+		}
+	}
 	var rec func()
 	rec = func() {
 		check()
@@ -181,18 +208,18 @@ func runC06(c *bx.Ctx) {
 		if len(idx) == maxDepth {
 			return
 		}
-		for i := range alpha {
+		for i := 0; i < nSmall; i++ {
 			idx = append(idx, i)
 			rec()
 			idx = idx[:len(idx)-1]
 		}
 	}
-	for i := range alpha {
+	for i := 0; i < nSmall; i++ {
 		if c.Mine() {
 			idx = append(idx[:0], i)
 			check()
 		}
-		for j := range alpha {
+		for j := 0; j < nSmall; j++ {
 			if !c.MineBlock(0) {
 				continue
 			}
@@ -203,4 +230,59 @@ func runC06(c *bx.Ctx) {
 			rec()
 		}
 	}
+	// sequences containing a large frame: alone, next to every element, and between / around
+	// eight representative small frames
+	c.Space("sequences-with-large-frames")
+	reps := []int{}
+	for i := 0; i < nSmall && len(reps) < 8; i += nSmall / 8 {
+		reps = append(reps, i)
+	}
+	seqOne := func(seq ...int) {
+		if !c.Mine() {
+			return
+		}
+		idx = append(idx[:0], seq...)
+		check()
+	}
+	for g := nSmall; g < len(alpha); g++ {
+		if c.Expired() {
+			return
+		}
+		seqOne(g)
+		for s := 0; s < len(alpha); s++ {
+			seqOne(g, s)
+			seqOne(s, g)
+		}
+		for _, a := range reps {
+			for _, b := range reps {
+				seqOne(a, g, b)
+				seqOne(g, a, b)
+				seqOne(a, b, g)
+			}
+		}
+	}
+}
+
+// c06Large: well-framed packets of 64 KiB and more.
+func c06Large() []c06elem {
+	var out []c06elem
+	raw := func(pt byte, words int) []byte {
+		b := make([]byte, 4*(words+1))
+		b[0], b[1], b[2], b[3] = 0x80, pt, byte(words>>8), byte(words)
+		for i := 4; i < len(b); i++ {
+			b[i] = byte(i * 7)
+		}
+		return b
+	}
+	for _, w := range []int{0x3ffe, 0x3fff, 0x4000, 0x7fff, 0x8000, 0xffff} {
+		out = append(out, c06elem{fmt.Sprintf("raw-pt199-length-%#x", w), raw(199, w), true})
+	}
+	// typed frames whose body is all "the rest": SR / RR with large extensions, APP with large data
+	sr := raw(200, 0x3fff)
+	out = append(out, c06elem{"sr-65536-octets", sr, true})
+	rr := raw(201, 0x4000)
+	out = append(out, c06elem{"rr-65540-octets", rr, true})
+	app := raw(204, 0x4001)
+	out = append(out, c06elem{"app-65544-octets", app, true})
+	return out
 }
